@@ -28,9 +28,20 @@ def corrupt_sem(doc, pid):
             call.setdefault("res", [[]]); call.setdefault("aux", [False]); call.setdefault("canon", [True])
             n_bad += 1
             continue
+        # corrupt a result that the case's judgement actually looks at: one whose formula id occurs in
+        # at least two results (equality judgements), else the first result
+        ids = [i for c in case["calls"] for i in c.get("ids", [])]
+        pick = None
+        for c in case["calls"]:
+            for j, i in enumerate(c.get("ids", [])):
+                if pick is None and ids.count(i) >= 2 and c.get("outcome") == "ok" and j < len(c.get("res", [])):
+                    pick = (c, j)
+        if pick is None:
+            pick = (call, 0)
+        call, ri = pick
         if call.get("outcome") != "ok" or not call.get("res") or not unit:
             continue
-        r = call["res"][0]
+        r = call["res"][ri]
         if pid == "C03":
             allp = set(range(2 ** nvars * (max(unit) // 2 ** nvars + 1)))
             inval = sorted(allp - set(unit))
